@@ -2,6 +2,7 @@
 import collections
 import random
 
+from vf import session
 from vf.core import Res
 from vf import worldlib as wl
 
@@ -81,7 +82,119 @@ def gen_scale(rng):
     return case
 
 
+def gen_stale(rng):
+    """A deferred deletion requested for an id that owns nothing at that
+    moment, followed by the creation of an entity under that id."""
+    return {'scenario': 'stale-mark',
+            'how': rng.choice(['never_existed', 'after_immediate',
+                               'from_on_remove', 'after_removals']),
+            'id': rng.choice([1, 2, 'player', 0, ('t', 1)]),
+            'recreate': rng.choice(['create', 'add', 'auto']),
+            'ncomp': rng.randint(1, 3), 'frames': rng.randint(1, 3)}
+
+
+def run_stale(case):
+    from vf import import_desper
+    desper = import_desper()
+    res = Res()
+    w = desper.World()
+    eid = case['id'] if not isinstance(case['id'], list) \
+        else tuple(case['id'])
+
+    class A:
+        pass
+
+    class B:
+        pass
+
+    class Own(desper.Controller):
+        def on_remove(self, entity, world):
+            if case['how'] == 'from_on_remove':
+                self.delete()       # "when I go, my entity goes"
+    Own = desper.event_handler('on_remove')(Own)
+    kinds = [Own, A, B][:case['ncomp']] if case['how'] == 'from_on_remove' \
+        else [A, B, Own][:case['ncomp']]
+    how = case['how']
+    if how == 'never_existed':
+        w.delete_entity(eid)
+    else:
+        # the handler component is listed last so that it is detached last
+        comps = [k() for k in kinds if k is not Own] + (
+            [Own()] if Own in kinds else [])
+        w.create_entity(*comps, entity_id=eid)
+        if how == 'after_removals':
+            for c in comps:
+                w.remove_component(eid, type(c))
+            w.delete_entity(eid)
+        else:
+            w.delete_entity(eid, immediate=True)
+            if how == 'after_immediate':
+                w.delete_entity(eid)
+    if w.get_components(eid):
+        res.div(0, 'stale-setup', 'the entity was not emptied', [],
+                [type(c).__name__ for c in w.get_components(eid)])
+        return res
+    fresh = A()
+    if case['recreate'] == 'create':
+        w.create_entity(fresh, entity_id=eid)
+        new_id = eid
+    elif case['recreate'] == 'add':
+        w.add_component(eid, fresh)
+        new_id = eid
+    else:
+        if eid != 1 or how == 'never_existed' and False:
+            pass
+        new_id = w.create_entity(fresh)
+    res.stats['stale_mark_scenarios'] += 1
+    res.tags['stale_mark_shape'].add((how, case['recreate']))
+
+    def consistent(at):
+        listed = new_id in w.entities
+        exists = w.entity_exists(new_id)
+        owns = any(c is fresh for c in w.get_components(new_id))
+        got = any(e == new_id and c is fresh for e, c in w.get(A))
+        if not (listed and exists and owns and got):
+            res.div(at, 'fresh-entity-awaiting-deletion', 'an entity created '
+                    'after a deletion request that named no entity (the id '
+                    'owned nothing then) is reported as not existing / is '
+                    'destroyed by the next process()',
+                    {'entities': True, 'entity_exists': True,
+                     'get_components': True, 'get': True},
+                    {'entities': listed, 'entity_exists': exists,
+                     'get_components': owns, 'get': got},
+                    id=repr(new_id))
+            return False
+        return True
+    if not consistent(1):
+        return res
+    for f in range(case['frames']):
+        try:
+            w.process(1)
+        except KeyError:
+            if case['recreate'] == 'auto' and new_id != eid:
+                # the request for the id that never got an entity is the
+                # suite's "unknown id" case: one failing frame is allowed
+                res.stats['dontcare_unknown_id_frame'] += 1
+                continue
+            res.div(2 + f, 'process-raised', 'process() raised KeyError '
+                    'although the only deletion request named an id that '
+                    'has since been given a new entity', 'no exception',
+                    'KeyError')
+            return res
+        if not consistent(2 + f):
+            return res
+    res.nontrivial = True
+    return res
+
+
 def gen_cases(tier, seed):
+    # whole "game sessions" (vf/session.py): the features used together,
+    # judged by the self-consistency invariants of this property
+    for i in range(150 if tier == 'quick' else 16 * 300):
+        yield session.gen(random.Random(f'C01/session/{seed}/{tier}/{i}'),
+                          tier)
+    for i in range(120 if tier == 'quick' else 16 * 300):
+        yield gen_stale(random.Random(f'C01/stale/{seed}/{tier}/{i}'))
     for i in range(3 if tier == 'quick' else 48):
         yield gen_scale(random.Random(f'C01/scale/{seed}/{tier}/{i}'))
     n = 2400 if tier == 'quick' else 16 * 6000
@@ -263,6 +376,10 @@ class C01Driver(wl.Driver):
 
 
 def run_case(case):
+    if case.get('scenario') == 'session':
+        return session.run(case, 'C01')
+    if case.get('scenario') == 'stale-mark':
+        return run_stale(case)
     res = Res()
     driver = C01Driver(case, res)
     driver.run()
